@@ -54,6 +54,7 @@
 (*  O4  [S2] says "trailing 0", [S1] says "trailing digit": cutting back a non-zero digit is accepted either way      *)
 (*  O5  a master address (scan.h: "either master for broadcast master data or slave"; the map has no scan message     *)
 (*      for masters)                                                                                                  *)
+(*  O6  the manufacturer byte 0xff (the "no value" of the byte type) is not enumerated                                   *)
 (* Texts are sequences of character codes.                                                                            *)
 EXTENDS EbusSymbols, Integers
 
@@ -270,24 +271,27 @@ CommonFiles(w) == {w.ents[k][1] : k \in {j \in 1..Len(w.ents) :
 DefaultCircuit(name) == LET p == ParseName(name) IN p.circuit \o p.suffix
 
 (***************************************************************************)
-(* Lemmas about P (checked by TLC on the enumerated worlds, ScanSelectGen)  *)
+(* Lemmas about P (checked by TLC on every enumerated world, ScanSelectGen) *)
 (***************************************************************************)
-(* a matching candidate that states more of SW/HW (same ident length) is never beaten by one stating less *)
-LemmaSpecificWins(W) == \A w \in W : LET e == Eval(w) IN e.adm \cap e.byVer = {}
-(* a longer ident match is never beaten by a shorter one *)
-LemmaLongerIdentWins(W) == \A w \in W : LET e == Eval(w) IN e.adm \cap e.byId = {}
-(* something is admissible whenever something may match, and a definite match never loses to nothing *)
-LemmaTotal(W) == \A w \in W : LET e == Eval(w) IN (e.maybe # {}) => (e.adm # {})
-LemmaMustAdmitted(W) == \A w \in W : LET e == Eval(w) IN (e.must # {}) => (e.adm \cap e.must # {})
-(* the listing order of the directory is no input of P *)
 RevSeq(s) == [k \in 1..Len(s) |-> s[Len(s) + 1 - k]]
-LemmaOrderFree(W) == \A w \in W : LET v == [w EXCEPT !.ents = RevSeq(w.ents)]  e == Eval(w)  f == Eval(v) IN
-                                  f.adm = e.adm /\ f.none = e.none /\ CommonFiles(v) = CommonFiles(w)
-(* files of other addresses, other directories, other extensions never influence the outcome *)
 Relevant(w, k) == ~IsDirKind(w.ents[k][2]) /\ DirOf(w.ents[k][1]) = WDir(w) /\ EndsWithCsv(BaseOf(w.ents[k][1]))
                   /\ StartsWith(BaseOf(w.ents[k][1]), Hex2(w.addr) \o <<DOT>>)
-LemmaIrrelevant(W) == \A w \in W : LET v == [w EXCEPT !.ents = KeepSeq(w.ents, {k \in 1..Len(w.ents) : Relevant(w, k)})]
-                                       e == Eval(w)  f == Eval(v) IN f.adm = e.adm /\ f.none = e.none
+(* L1 a matching candidate that states more of SW/HW (same ident length) is never beaten by one stating less          *)
+(* L2 a longer ident match is never beaten by a shorter one                                                            *)
+(* L3 something is admissible whenever something may match, and a definite match never loses to nothing               *)
+(* L4 the listing order of the directory is no input of P                                                              *)
+(* L5 files of other addresses, other directories, other extensions, and directories never influence the outcome      *)
+(* L6 only candidates are ever admissible, and every admissible file states the address of the world                  *)
+LemmaSpecificWins(e) == e.adm \cap e.byVer = {}
+LemmaLongerIdentWins(e) == e.adm \cap e.byId = {}
+LemmaTotal(e) == ((e.maybe # {}) => (e.adm # {})) /\ ((e.must # {}) => (e.adm \cap e.must # {}))
+LemmaOrderFree(w, e) == LET v == [w EXCEPT !.ents = RevSeq(w.ents)]  f == Eval(v) IN
+                        f.adm = e.adm /\ f.none = e.none /\ CommonFiles(v) = CommonFiles(w)
+LemmaIrrelevant(w, e) == LET v == [w EXCEPT !.ents = KeepSeq(w.ents, {k \in 1..Len(w.ents) : Relevant(w, k)})]  f == Eval(v) IN
+                         f.adm = e.adm /\ f.none = e.none
+LemmaCandidates(w, e) == e.adm \subseteq e.cands /\ \A c \in e.adm : ParseName(c).zz = w.addr
+LemmasOn(w) == LET e == Eval(w) IN /\ LemmaSpecificWins(e) /\ LemmaLongerIdentWins(e) /\ LemmaTotal(e)
+                                   /\ LemmaOrderFree(w, e) /\ LemmaIrrelevant(w, e) /\ LemmaCandidates(w, e)
 
 (***************************************************************************)
 (* MASTER/SLAVE text of an injected message  [S4, S6]                       *)
